@@ -11,6 +11,7 @@ operations regenerated from the source on every run, compared below with the inv
 import SpdxVerif.Lemmas.GoShaped
 import SpdxVerif.Lemmas.GoScan
 import SpdxVerif.Lemmas.GoDeref
+import SpdxVerif.Lemmas.GoSlices
 import SpdxVerif.Spec.Census
 namespace Spdx.C03
 
@@ -85,6 +86,52 @@ example : (match G.sl [45,111,114] 0 ((3 : Int) - 9) with | .panic => true | .ok
 -- the Go-shaped pipeline on texts that exercise the rewrite and the look-behind
 example : (match G.parseG (str "Apache-2.0-or-later+ AND (MIT +)") with | .ok none => true | _ => false) = true := by decide +kernel
 example : (match G.parseG (str "(Apache-2.0-or-later) AND MIT") with | .ok (some _) => true | _ => false) = true := by decide +kernel
+
+/-! ### the index and slice expressions behind the parser (satisfies.go), Go-shaped (Model/GoSlices.lean) -/
+
+/-- `sortAndDedup`: `nodes[curr-1]`, `nodes[curr]`, `nodes[prev] = …`, `nodes[:prev]` and the dereferenced strings — no
+    allowed list that `stringsToNodes` lets through (terms only, any length, any repeats) makes it panic -/
+theorem g_sortAndDedup_never_panics (L : List Bytes) (A : List Node) (hA : toNodes L = .ok A) : G.sortAndDedupG A ≠ .panic := by
+  obtain ⟨arr, front, h, _⟩ := G.sortAndDedupG_ok A (fun x hx => (toNodes_leafOK hA x hx).2)
+  rw [h]; intro hc; cases hc
+
+/-- … and the array it leaves behind is the one the main model's `Satisfies` searches (refinement of `sortAndDedupArray`) -/
+theorem g_sortAndDedup_refines (L : List Bytes) (A : List Node) (hA : toNodes L = .ok A) :
+    ∃ front, G.sortAndDedupG A = .ok (sortAndDedupArray A, front) :=
+  G.sortAndDedupG_eq A (fun x hx => (toNodes_leafOK hA x hx).2)
+
+/-- the comparator of `deepSort`'s outer sort, on any two alternatives of any expansion: `nodes2d[i][k]` is read only for
+    `k < len(nodes2d[i])`, and the result is the model's element-wise order -/
+theorem g_deepSort_comparator (a b : List Node) (hla : ∀ x ∈ a, x.isLeaf = true) (hlb : ∀ x ∈ b, x.isLeaf = true) :
+    G.lessG b.length a b 0 = .ok (listLt (a.map render) (b.map render)) := by
+  have := G.lessG_ok b.length a b 0 hla hlb (by omega)
+  simpa using this
+
+theorem g_deepSort_comparator_never_panics (a b : List Node)
+    (hla : ∀ x ∈ a, x.isLeaf = true) (hlb : ∀ x ∈ b, x.isLeaf = true) : G.lessG b.length a b 0 ≠ .panic := by
+  rw [G.lessG_ok b.length a b 0 hla hlb (by omega)]; intro hc; cases hc
+
+theorem g_deepSort_guard_never_panics (ll : List (List Node)) : G.deepSortGuardG ll ≠ .panic := by
+  obtain ⟨b, h⟩ := G.deepSortGuardG_ok ll
+  rw [h]; intro hc; cases hc
+
+/-- `mergeTerms`: `results[j] = append(l, r...)` stays inside `results`, and the result is the model's `mergeTerms` -/
+theorem g_mergeTerms_refines (L R : List (List Node)) : G.mergeTermsG L R = .ok (mergeTerms L R) := G.mergeTermsG_ok L R
+
+/-- `stringsToNodes`: `nodes[i] = node` for `i` over `range licenses` into `make([]*node, len(licenses))` -/
+theorem g_stringsToNodes_fill_never_panics {α} (xs : List α) : G.fillG xs.length (List.replicate xs.length none) xs 0 ≠ .panic := by
+  obtain ⟨out, h, _⟩ := G.fillG_ok xs.length (List.replicate xs.length none) xs 0 (by simp)
+  rw [h]; intro hc; cases hc
+
+-- the layer expresses the defects: an index at the length, a write at the length, a slice beyond the length are panics
+example : (match G.idx [1, 2] 2 with | .panic => true | .ok _ => false) = true := by decide
+example : (match G.setIdx [1] 1 0 with | .panic => true | .ok _ => false) = true := by decide
+example : (match G.slicePrefix [1, 2] 3 with | .panic => true | .ok _ => false) = true := by decide
+-- … and the comparator without its `k >= len(nodes2d[i])` test would index past the shorter alternative
+example : (match G.idx ([] : List Node) 0 with | .panic => true | .ok _ => false) = true := by decide
+-- a concrete allowed list with repeats: the loop runs, compacts and slices
+example : (match G.sortAndDedupG [.lic [77,73,84] false none, .lic [73,83,67] false none, .lic [77,73,84] false none] with
+    | .ok (arr, front) => arr.length == 3 && front.length == 2 | .panic => false) = true := by decide +kernel
 
 /-! ### inventory of partial operations in the source (regenerated census) -/
 
